@@ -980,6 +980,22 @@ func genGraph(rt *rapid.T, opts ggOpts) *ggraph {
 }
 
 // model marshals the graph. Nodes are emitted in a drawn topological order.
+// declareLoosely occasionally strips a graph input's declaration down to what exporters also
+// produce: no shape, or no type information at all. Such an input is accepted without validation.
+func declareLoosely(rt *rapid.T, vi *onnx.ValueInfoProto) *onnx.ValueInfoProto {
+	if rt == nil {
+		return vi
+	}
+	switch rapid.IntRange(0, 11).Draw(rt, "declaration") {
+	case 0:
+		return &onnx.ValueInfoProto{Name: vi.Name}
+	case 1:
+		et := vi.GetType().GetTensorType().GetElemType()
+		return &onnx.ValueInfoProto{Name: vi.Name, Type: &onnx.TypeProto{Value: &onnx.TypeProto_TensorType{TensorType: &onnx.TypeProto_Tensor{ElemType: et}}}}
+	}
+	return vi
+}
+
 func (gg *ggraph) model(rt *rapid.T) *onnx.ModelProto {
 	g := &onnx.GraphProto{Initializer: gg.inits}
 	for _, in := range gg.inputs {
@@ -990,7 +1006,7 @@ func (gg *ggraph) model(rt *rapid.T) *onnx.ModelProto {
 				dims[i] = "N"
 			}
 		}
-		g.Input = append(g.Input, valueInfo(in.name, onnxTypeOf[in.dt], dims...))
+		g.Input = append(g.Input, declareLoosely(rt, valueInfo(in.name, onnxTypeOf[in.dt], dims...)))
 	}
 	var sh []string
 	for name := range gg.shadowed {
@@ -998,7 +1014,7 @@ func (gg *ggraph) model(rt *rapid.T) *onnx.ModelProto {
 	}
 	sort.Strings(sh)
 	for _, name := range sh {
-		g.Input = append(g.Input, valueInfoFor(name, gg.initVals[name]))
+		g.Input = append(g.Input, declareLoosely(rt, valueInfoFor(name, gg.initVals[name])))
 	}
 	// random topological order
 	produced := map[string]bool{}
